@@ -139,7 +139,7 @@ func main() {
 
 	// ---- (P) targeted races around Close (both were real on the tree as found and are repaired by
 	// "fix: cache: finalise once, and only at zero references, on a closed cache"; they must not recur)
-	raceBudget := 2 * time.Second
+	raceBudget := 5 * time.Second
 	if a.Thorough() {
 		raceBudget = 60 * time.Second
 	}
